@@ -187,3 +187,11 @@ def run(ctx):
                 if o.kind in ("place", "param"):
                     srcs.add(tuple(o.proj))
         r4.check(len(puts) >= 4, "cancel-frame", "CancelRequest frame has four i32 fields (len, code, pid, key)", "CancelRequest frame has %d i32 fields" % len(puts))
+        # the looked-up target is used at once: one connect, one write. The map is consulted exactly once (before this call), so any waiting or
+        # retrying inside the delivery lets the client's transaction end and the server session move on to another client while the request is in flight
+        conn = sc.calls("re:^tokio::net::tcp::stream::TcpStream::connect$")
+        heads = loop_headers(sc)
+        in_loop = [c for c in conn if any(c.block in natural_loop(sc, hd) for hd in heads)]
+        r4.check(len(conn) == 1 and not in_loop, "single-attempt", "Server::cancel connects once, outside any loop", "Server::cancel connects %d time(s)%s: a delivery that retries uses a target looked up before the wait - by then the session can belong to another client's transaction" % (len(conn), " in a loop" if in_loop else ""), conn[0].where() if conn else "")
+        waits = sorted(F.reachable_fns([CANCEL]) & {n_ for n_ in F.callgraph_nodes() if re.search(r"^tokio::time::(sleep|interval|timeout|instant)::|^tokio::time::(sleep|sleep_until|timeout|interval)$|^std::thread::sleep$", n_)})
+        r4.check(not waits, "no-waiting-in-delivery", "nothing reachable from Server::cancel sleeps or arms a timer", "the cancel delivery waits (%s) between the lookup and the send" % waits)
